@@ -1,1 +1,1 @@
-s = s.replace("		t.From.Authority = prevAuth\n", "")
+s = s.replace("		t.From.Authority = prevAuth\n", "		_ = prevAuth\n")
